@@ -148,6 +148,8 @@ def scenario(rng, kind=None, mode=None, removal=None, builtin_p=0.6, prog_p=0.4)
         sc["Tperm"] = rng.uniform(200.0, T0 - 25.0)
     elif mode == "press":
         sc["pperm"] = 0.0 if rng.random() < 0.15 else rng.uniform(0.0, 3.0)       # 0 kPa exactly is a stated pressure too
+        if rng.random() < 0.2:
+            sc["pperm"] = gen.logu(rng, 1e-6, 0.1)                                    # a good vacuum pump: pascals, not kilopascals
     if kind.startswith("nonideal"):
         single_off = rng.random() < 0.5        # single curve at a temperature different from T0
         t_curve = None if single_off else T0
@@ -280,6 +282,22 @@ def run_process(perv, sc):
             call_model(sc["preuse"], sco, cond)
         except Exception:  # noqa: BLE001
             pass
+    if sc.get("edit_reuse"):
+        # the very same Conditions object has described ANOTHER run first (other area, amount, composition; the same model, grid and
+        # options on the same Pervaporation object) and was then edited in place to the run asked for now
+        a, m0 = cond.membrane_area, cond.initial_feed_amount
+        comp = cond.initial_feed_composition
+        own = pv.Composition(p=min(0.97, max(0.03, float(comp.p) * sc["edit_reuse"][2])), type=comp.type)
+        cond.membrane_area, cond.initial_feed_amount, cond.initial_feed_composition = a * sc["edit_reuse"][0], m0 * sc["edit_reuse"][1], own
+        try:
+            call_model(perv, sc, cond)
+        except Exception:  # noqa: BLE001
+            pass
+        cond.membrane_area, cond.initial_feed_amount = a, m0
+        if sc["edit_reuse"][3]:
+            own.p = float(comp.p)                  # the fraction re-assigned on the object the first run saw
+        else:
+            cond.initial_feed_composition = comp
     try:
         model = call_model(perv, sc, cond)
         return {"outcome": "return", "exc": None, "model": model, "cond": cond}
@@ -536,6 +554,8 @@ def record_job(job):
             sc["shared_comp"] = pv.Composition(p=sc["x0"], type=sc["basis"])
             pool.append(sc["shared_comp"])
             pool[:] = pool[-6:]
+        if rng.random() < 0.12 and sc["kind"].startswith("ideal"):
+            sc["edit_reuse"] = (rng.choice([2.0, 0.5, 1.0]), rng.choice([1.5, 1.0, 0.25]), rng.uniform(0.5, 1.5), rng.random() < 0.5)
         tr, res = trace_process(rng, sc, with_std=opts.get("with_std", True), with_fits=opts.get("with_fits", False),
                                with_ref=opts.get("with_ref", False))
         if tr is None:
